@@ -23,18 +23,37 @@
   * `week_budget_at_freeze` — `WeekBudget … paid := 0` holds for every completed week in every
     reachable state (both halves together).
 
-  NOT proved here (needed for `C05Cover.no_underflow_full`; see notes/f6fix.md): the budget WITH the
-  amount already paid (`remaining(w) + paid(w) = R_w` for a frozen week inside the window, the paid
-  amount being the shares of the users who left the claimers' sums, the week's factors staying the same
-  ring entry while the week is claimable), and the success of the weekly module's own checked
-  subtractions (bucket / total-energy updates).
+  Round 2 (Lemmas/FarmWeekPaid.lean), under the additional explicit hypothesis `GoodOps ops` (every
+  `setBoostedYieldsFactors` of the history installs factors with `cE + cF ≠ 0`):
+
+  * `week_budget_with_payments` — every FROZEN week of the claim window: `remaining + paid = R` and
+    `WeekBudget fa R F_w E_w (paid w) (Σ eForP) (Σ fFor)` for the factors in force (which do not change
+    while the week is claimable);
+  * `claimer_reward_le_remaining` — the operand pair of the checked subtraction: the computed reward of
+    every remaining claimer is `≤ remaining(w)`;
+  * `weekly_pool_sub_never_underflows` — the boosted claim of any user succeeds as soon as the weekly
+    module's global energy update for that user succeeds: nothing inside the reward loop — in particular not
+    `remaining_boosted_rewards_to_distribute(week) −= user_reward` — can abort;
+  * `exit_succeeds_weekly`, `claim_succeeds_weekly` — `exit_succeeds` / `claim_succeeds` of Props/C05Cover
+    with the boosted-claim hypothesis discharged.
+
+  Round 2, liveness (Lemmas/WeeklyLive.lean, FarmWeekLive.lean):
+
+  * `weekly_update_never_fails` — the weekly module's global energy update (`update_user_energy_for_current_week`:
+    bucket shift, bucket reallocation, total tokens / energy) cannot abort in a reachable state;
+  * `boosted_claim_always_succeeds`, `exit_always_succeeds`, `claim_always_succeeds` — unconditional progress;
+  * `no_underflow_full_good_holds` — the full last clause of C05 PROVED under `GoodOps`;
+    `no_underflow_full_needs_factor_validation` — and false without it (`cE = cF = 0`, division by zero).
 
   Hypothesis of the run-level theorems: `users.Nodup` (distinct accounts — `PosInv`).
-  Model: Core/Farm.lean.  Lemmas: Lemmas/FarmWeekPos.lean (+ FarmPos, FarmEnergy, FarmWeekSafe).
+  Model: Core/Farm.lean.  Lemmas: Lemmas/FarmWeekPos.lean, FarmWeekPaid.lean (+ FarmPos, FarmEnergy, FarmWeekSafe).
 -/
 import MxModel.Lemmas.FarmWeekPos
 import MxModel.Lemmas.FarmEnergy
 import MxModel.Lemmas.FarmWeekSafe
+import MxModel.Lemmas.FarmWeekPaid
+import MxModel.Lemmas.FarmWeekLive
+import MxModel.Props.C05Cover
 
 namespace Mx.C05Budget
 open Mx.Farm
@@ -178,6 +197,264 @@ example :
        .enter 1 none 100000000 [], .advance 10 6, .claim 1 none [(1, 100000000)], .advance 20 7]
     s.week = some 2 ∧ s.b.farmSupplyWeek 1 = 100000000 ∧
     (s.w.users.map fun v => fFor s.w.progress s.userTotal v 1).sum = 100000000 := by
+  decide
+
+/-! ### the budget WITH payments, and: the weekly pool subtraction never underflows
+
+  Additional hypothesis of this section, explicit and satisfiable: `GoodOps ops` — every
+  `setBoostedYieldsFactors` of the history installs factors with `cE + cF ≠ 0`
+  (`user_rewards_energy_const + user_rewards_farm_const`, the divisor of the reward formula; the real
+  endpoint does not validate it, and with `cE + cF = 0` `get_user_rewards_for_week` divides by zero).
+  The model's `init` has no factors; the hypothesis is about the op list only. -/
+
+/-- **frozen-pool accounting and the week budget with payments, in every reachable state.**  For the
+    current week `W` and every week `w` of the claim window (`W − 4 ≤ w < W`) that is frozen with pool
+    `R` (`totalRewardsForWeek(w) = [(REW, R)]`):
+    `remaining(w) + paid(w) = R`, and — when the week is live (`E_w ≠ 0`, `F_w ≠ 0`) — for the factors
+    `fa` in force for `w`: `WeekBudget fa R F_w E_w (paid w) (Σ eForP) (Σ fFor)`: what was paid plus the
+    un-floored shares of everybody who can still claim `w` fits into `R`. -/
+theorem week_budget_with_payments (kind : Kind) (same : Bool) (dsc pb : Nat) (produce : Bool)
+    (users : List Nat) (e0 : Nat) (hnd : users.Nodup) (ops : List Op) (hg : GoodOps ops) :
+    let s := run (init kind same dsc pb produce users e0) ops
+    ∀ W w R, s.week = some W → W ≤ w + 4 → w < W → s.w.totalRewards w = [(REW, R)] →
+      s.b.remaining w + s.b.paidW w = R ∧
+      (s.w.totalEnergy w ≠ 0 → s.b.farmSupplyWeek w ≠ 0 → ∀ fa, facAt s.b.cfg w = some fa →
+        WeekBudget fa R (s.b.farmSupplyWeek w) (s.w.totalEnergy w) (s.b.paidW w)
+          ((s.w.users.map fun u => Weekly.eForP s.w.progress u w).sum)
+          ((s.w.users.map fun v => fFor s.w.progress s.userTotal v w).sum)) := by
+  intro s W w R hW hw1 hw2 hT
+  have hP := reachable_paidInv kind same dsc pb produce users e0 hnd ops hg W hW
+  refine ⟨hP.rel.frozen w R hw1 hT, fun hE hF fa hfa => ?_⟩
+  have := hP.rel.budget w hw1 hw2 hE hF fa hfa
+  have hT' : (pmv s).TR w = [(REW, R)] := hT
+  rw [hT', rOf_single] at this
+  exact this
+
+/-- **the reward of every claimer fits into what the week's pool still holds**: in every reachable
+    state, for every frozen live week `w` of the window, every user `v` of the weekly module's key list
+    and the factors in force: `boostedAmount fa R (f_v) F_w (e_v) E_w ≤ remaining(w)` — `f_v`, `e_v` the
+    position / energy `v` can still claim `w` with (0 once `v`'s progress has passed `w`).  This is the
+    operand pair of the checked subtraction `remaining_boosted_rewards_to_distribute(w) −= user_reward`. -/
+theorem claimer_reward_le_remaining (kind : Kind) (same : Bool) (dsc pb : Nat) (produce : Bool)
+    (users : List Nat) (e0 : Nat) (hnd : users.Nodup) (ops : List Op) (hg : GoodOps ops) (v : Nat) :
+    let s := run (init kind same dsc pb produce users e0) ops
+    ∀ W w R fa, s.week = some W → W ≤ w + 4 → w < W → s.w.totalRewards w = [(REW, R)] →
+      v ∈ s.w.users → facAt s.b.cfg w = some fa → s.w.totalEnergy w ≠ 0 → s.b.farmSupplyWeek w ≠ 0 →
+      boostedAmount fa R (fFor s.w.progress s.userTotal v w) (s.b.farmSupplyWeek w)
+        (Weekly.eForP s.w.progress v w) (s.w.totalEnergy w) ≤ s.b.remaining w := by
+  intro s W w R fa hW hw1 hw2 hT hv hfa hE hF
+  have hP := reachable_paidInv kind same dsc pb produce users e0 hnd ops hg W hW
+  have hc : fa.cE + fa.cF ≠ 0 := by
+    cases hcfg : s.b.cfg with
+    | none => rw [hcfg] at hfa; cases hfa
+    | some cfg =>
+      rw [hcfg] at hfa
+      obtain ⟨hWF, _, hgood⟩ := hP.wf cfg hcfg
+      exact hgood fa (facFor_mem hWF hfa)
+  exact hP.rel.sub_ok hv hw1 hw2 hT hfa hc hE hF
+
+/-- **weekly_pool_sub_never_underflows.**  In every reachable state of the (repaired) farm, for every
+    user `u`: the boosted claim `claim_boosted_yields_rewards(u)` — `claim_multi` over
+    `get_user_rewards_for_week` for up to four weeks — SUCCEEDS as soon as the weekly-rewards module's
+    own global energy update for `u` (`update_user_energy_for_current_week`, the first statement of
+    `claim_multi`) succeeds.  So nothing inside the reward loop can abort the transaction: not the
+    factors lookup, not the frozen list, not the division by `cE + cF`, and in particular NOT the checked
+    subtraction `remaining_boosted_rewards_to_distribute(week) −= user_reward` (the failure of F6). -/
+theorem weekly_pool_sub_never_underflows (kind : Kind) (same : Bool) (dsc pb : Nat) (produce : Bool)
+    (users : List Nat) (e0 : Nat) (hnd : users.Nodup) (ops : List Op) (hg : GoodOps ops) (u : Nat) :
+    let s := run (init kind same dsc pb produce users e0) ops
+    ∀ W, s.week = some W →
+      (Weekly.updateUserEnergyForCurrentWeek s.w W (Weekly.Energy.queried (s.energy u) s.epoch)
+        (s.w.progress u)).isSome = true →
+      (claimBoostedYields s u).isSome = true := by
+  intro s W hW h1
+  exact claimBoostedYields_total (reachable_paidInv kind same dsc pb produce users e0 hnd ops hg W hW)
+    (reachable_winv kind same dsc pb produce users e0 ops)
+    (reachable_weekPos kind same dsc pb produce users e0 hnd ops) h1
+
+/-- the same on the settled state an endpoint claims from (`generate` first, as claim / exit /
+    claimBoostedRewards do): the boosted claim of the endpoint succeeds under the same condition -/
+theorem endpoint_boosted_claim_succeeds (kind : Kind) (same : Bool) (dsc pb : Nat) (produce : Bool)
+    (users : List Nat) (e0 : Nat) (hnd : users.Nodup) (ops : List Op) (hg : GoodOps ops) (u : Nat)
+    {s1 : St} {c1 : Cache} :
+    let s := run (init kind same dsc pb produce users e0) ops
+    generate s (Cache.read s) = some (s1, c1) →
+    ∀ W, s.week = some W →
+      (Weekly.updateUserEnergyForCurrentWeek s.w W (Weekly.Energy.queried (s.energy u) s.epoch)
+        (s.w.progress u)).isSome = true →
+      (claimBoostedYields s1 u).isSome = true := by
+  intro s hgen W hW h1
+  have hP := (reachable_paidInv kind same dsc pb produce users e0 hnd ops hg W hW).of_view (generate_pmv hgen)
+  have hWI := (reachable_winv kind same dsc pb produce users e0 ops).of_w (generate_w hgen)
+  have hWP := (reachable_weekPos kind same dsc pb produce users e0 hnd ops).of_wv (generate_wv hgen).1
+  have hw : s1.w = s.w := generate_w hgen
+  obtain ⟨b', rfl, _⟩ := generate_spec hgen
+  exact claimBoostedYields_total hP hWI hWP h1
+
+/-- **principal withdrawable unless the weekly module's own energy bookkeeping aborts.**  `exit_succeeds`
+    (Props/C05Cover.lean) with its first hypothesis discharged: in every reachable state of an active farm,
+    a holder's `exitFarm` succeeds as soon as the weekly module's global energy update for the caller
+    succeeds (then the boosted claim does, by the theorem above) and `clear_user_energy_if_needed` does. -/
+theorem exit_succeeds_weekly (kind : Kind) (same : Bool) (dsc pb : Nat) (produce : Bool)
+    (users : List Nat) (e0 : Nat) (hnd : users.Nodup) (hd : dsc ≠ 0) (ops : List Op) (hg : GoodOps ops)
+    (u n a : Nat) :
+    let s := run (init kind same dsc pb produce users e0) ops
+    s.active = true → a ≠ 0 → a ≤ s.hold u n →
+    ∀ W, s.week = some W →
+      (Weekly.updateUserEnergyForCurrentWeek s.w W (Weekly.Energy.queried (s.energy u) s.epoch)
+        (s.w.progress u)).isSome = true →
+      ∃ att s1 c1 s2 boosted, s.attrs n = some att ∧ generate s (Cache.read s) = some (s1, c1) ∧
+        claimBoostedYields s1 u = some (s2, boosted) ∧
+        ((clearUserEnergyIfNeeded (decreaseOwner s2 att.owner a) u).isSome = true →
+          (step s (.exit u none n a)).isSome = true) := by
+  intro s hact ha hle W hW h1
+  obtain ⟨att, s1, c1, hat, hgen, hex⟩ :=
+    Mx.C05Cover.exit_succeeds kind same dsc pb produce users e0 hnd hd ops u n a hact ha hle
+  have hb := endpoint_boosted_claim_succeeds kind same dsc pb produce users e0 hnd ops hg u hgen W hW h1
+  obtain ⟨⟨s2, boosted⟩, hcl⟩ := Option.isSome_iff_exists.mp hb
+  exact ⟨att, s1, c1, s2, boosted, hat, hgen, hcl, hex s2 boosted hcl⟩
+
+/-- the same for `claimRewards` of one payment by its holder: it succeeds as soon as the weekly module's
+    global energy update for the caller does -/
+theorem claim_succeeds_weekly (kind : Kind) (same : Bool) (dsc pb : Nat) (produce : Bool)
+    (users : List Nat) (e0 : Nat) (hnd : users.Nodup) (hd : dsc ≠ 0) (ops : List Op) (hg : GoodOps ops)
+    (u n a : Nat) :
+    let s := run (init kind same dsc pb produce users e0) ops
+    s.active = true → a ≠ 0 → a ≤ s.hold u n →
+    ∀ W, s.week = some W →
+      (Weekly.updateUserEnergyForCurrentWeek s.w W (Weekly.Energy.queried (s.energy u) s.epoch)
+        (s.w.progress u)).isSome = true →
+      (step s (.claim u none [(n, a)])).isSome = true := by
+  intro s hact ha hle W hW h1
+  obtain ⟨s1, c1, hgen, hex⟩ :=
+    Mx.C05Cover.claim_succeeds kind same dsc pb produce users e0 hnd hd ops u n a hact ha hle
+  have hb := endpoint_boosted_claim_succeeds kind same dsc pb produce users e0 hnd ops hg u hgen W hW h1
+  obtain ⟨⟨s2, boosted⟩, hcl⟩ := Option.isSome_iff_exists.mp hb
+  exact hex s2 boosted hcl
+
+/-- the history of the non-vacuity example: two users with energy (1 : 3) and positions (1000 : 3000)
+    farm through week 1 (pool of week 1: 2500); in week 2 user 1 claims, which FREEZES week 1 and pays
+    user 1's share 623 -/
+def twoClaimers : List Op :=
+  [.setFactors OWNER ⟨10, 3, 2, 1, 1⟩, .setPct OWNER 2500, .setEnergy 1 1000000 0 1000,
+   .setEnergy 2 3000000 0 1000, .enter 1 none 1000 [], .enter 2 none 3000 [], .advance 10 6,
+   .claim 1 none [(1, 1000)], .advance 20 7, .claim 1 none [(3, 1000)]]
+
+/-- non-vacuity (closed, by `decide`): `GoodOps` holds for the history; in the reached state week 1 is
+    frozen with `R = 2500`, `remaining + paid = 1877 + 623 = R`, user 2 is the only claimer left, the
+    weekly module's update for user 2 succeeds, so (by `weekly_pool_sub_never_underflows`) user 2's claim
+    succeeds — it pays 1876 ≤ 1877 and leaves 1 in the pool: `remaining + paid = 1 + 2499 = R` again. -/
+example :
+    let s := run (init .mint false 1000000000000 1000 true [1, 2] 0) twoClaimers
+    twoClaimers.all goodOp = true ∧
+    s.week = some 2 ∧ s.w.totalRewards 1 = [(REW, 2500)] ∧ s.b.remaining 1 = 1877 ∧ s.b.paidW 1 = 623 ∧
+    s.b.farmSupplyWeek 1 = 4000 ∧ s.w.totalEnergy 1 = 3994000 ∧ s.w.users = [1, 2] ∧
+    (s.w.users.map fun v => fFor s.w.progress s.userTotal v 1).sum = 3000 ∧
+    (Weekly.updateUserEnergyForCurrentWeek s.w 2 (Weekly.Energy.queried (s.energy 2) s.epoch)
+      (s.w.progress 2)).isSome = true ∧
+    (claimBoostedYields s 2).map (·.2) = some 1876 ∧
+    (step s (.claim 2 none [(2, 3000)])).map (fun r => (r.1.b.remaining 1, r.1.b.paidW 1)) =
+      some (1, 2499) := by
+  decide
+
+/-! ### the weekly module's own bookkeeping cannot abort: `no_underflow_full` under factor validation -/
+
+/-- **the weekly module's global energy update never fails** in a reachable farm state, for any user and
+    any current energy: the checked subtractions of `shift_buckets_and_update_tokens_energy`,
+    `reallocate_bucket_after_energy_update`, `update_…_total_tokens_…`, `update_…_total_energy_…` and the
+    two week-order `require!`s are discharged from the lot invariant `GInv` and
+    `lastGlobalUpdateWeek ≤ current week` (Lemmas/WeeklyLive.lean).  (`GoodOps` is only carried because
+    the latter is a clause of the same state invariant `PaidInv`; the factors play no role here.) -/
+theorem weekly_update_never_fails (kind : Kind) (same : Bool) (dsc pb : Nat) (produce : Bool)
+    (users : List Nat) (e0 : Nat) (hnd : users.Nodup) (ops : List Op) (hg : GoodOps ops) (u : Nat)
+    (cur : Weekly.Energy) :
+    let s := run (init kind same dsc pb produce users e0) ops
+    ∀ W, s.week = some W →
+      (Weekly.updateUserEnergyForCurrentWeek s.w W cur (s.w.progress u)).isSome = true := by
+  intro s W hW
+  exact weekly_update_ok (reachable_paidInv kind same dsc pb produce users e0 hnd ops hg W hW)
+    (reachable_winv kind same dsc pb produce users e0 ops) u cur
+
+/-- **the boosted claim of any user succeeds in every reachable state** (`weekly_pool_sub_never_underflows`
+    with its hypothesis discharged) -/
+theorem boosted_claim_always_succeeds (kind : Kind) (same : Bool) (dsc pb : Nat) (produce : Bool)
+    (users : List Nat) (e0 : Nat) (hnd : users.Nodup) (ops : List Op) (hg : GoodOps ops) (u : Nat) :
+    let s := run (init kind same dsc pb produce users e0) ops
+    (claimBoostedYields s u).isSome = true := by
+  intro s
+  obtain ⟨W, hW⟩ := (reachable_weekPos kind same dsc pb produce users e0 hnd ops).week
+  exact claimBoostedYields_ok (reachable_paidInv kind same dsc pb produce users e0 hnd ops hg W hW)
+    (reachable_winv kind same dsc pb produce users e0 ops)
+    (reachable_weekPos kind same dsc pb produce users e0 hnd ops) u
+
+/-- **every position's principal is withdrawable**: in every reachable state of an active farm (both
+    kinds), whoever holds `a > 0` of position `n` can exit with it — NO internal counter, guard or checked
+    subtraction of `exitFarm` (farm, boosted-yields and weekly-rewards modules included) can fail.
+    Hypotheses: distinct accounts, `dsc ≠ 0`, and `GoodOps` (every installed factor set has
+    `cE + cF ≠ 0`). -/
+theorem exit_always_succeeds (kind : Kind) (same : Bool) (dsc pb : Nat) (produce : Bool)
+    (users : List Nat) (e0 : Nat) (hnd : users.Nodup) (hd : dsc ≠ 0) (ops : List Op) (hg : GoodOps ops)
+    (u n a : Nat) :
+    let s := run (init kind same dsc pb produce users e0) ops
+    s.active = true → a ≠ 0 → a ≤ s.hold u n → (exitFarm s u none n a).isSome = true := by
+  intro s hact ha hle
+  obtain ⟨hA, hP, hK, hI, hdsc⟩ := reachable_invs kind same dsc pb produce users e0 hnd ops
+  obtain ⟨W, hW⟩ := (reachable_weekPos kind same dsc pb produce users e0 hnd ops).week
+  exact exitFarm_always hA hP hK hI (reachable_xinv kind same dsc pb produce users e0 ops)
+    (by rw [hdsc]; exact hd) (reachable_paidInv kind same dsc pb produce users e0 hnd ops hg W hW)
+    (reachable_winv kind same dsc pb produce users e0 ops)
+    (reachable_weekPos kind same dsc pb produce users e0 hnd ops) hact ha hle
+
+/-- the same for `claimRewards` of one payment by its holder -/
+theorem claim_always_succeeds (kind : Kind) (same : Bool) (dsc pb : Nat) (produce : Bool)
+    (users : List Nat) (e0 : Nat) (hnd : users.Nodup) (hd : dsc ≠ 0) (ops : List Op) (hg : GoodOps ops)
+    (u n a : Nat) :
+    let s := run (init kind same dsc pb produce users e0) ops
+    s.active = true → a ≠ 0 → a ≤ s.hold u n → (claimRewards s u none [(n, a)]).isSome = true := by
+  intro s hact ha hle
+  obtain ⟨hA, hP, hK, hI, hdsc⟩ := reachable_invs kind same dsc pb produce users e0 hnd ops
+  obtain ⟨W, hW⟩ := (reachable_weekPos kind same dsc pb produce users e0 hnd ops).week
+  exact claimRewards_always hA hP hK hI (reachable_xinv kind same dsc pb produce users e0 ops)
+    (by rw [hdsc]; exact hd) (reachable_paidInv kind same dsc pb produce users e0 hnd ops hg W hW)
+    (reachable_winv kind same dsc pb produce users e0 ops)
+    (reachable_weekPos kind same dsc pb produce users e0 hnd ops) hact ha hle
+
+/-- the full clause of C05 ("every position's principal is withdrawable and no legitimate … exit fails
+    because an internal counter would go negative") under factor validation: `C05Cover.no_underflow_full`
+    with the additional hypothesis `GoodOps ops` -/
+def no_underflow_full_good : Prop :=
+  ∀ (kind : Kind) (same : Bool) (dsc pb : Nat) (produce : Bool) (users : List Nat) (e0 : Nat)
+    (ops : List Op), users.Nodup → dsc ≠ 0 → GoodOps ops →
+    let s := run (init kind same dsc pb produce users e0) ops
+    ∀ u n a, u ∈ s.users → s.active = true → a ≠ 0 → a ≤ s.hold u n → (exitFarm s u none n a).isSome
+
+/-- **no_underflow_full, PROVED under factor validation** -/
+theorem no_underflow_full_good_holds : no_underflow_full_good := by
+  intro kind same dsc pb produce users e0 ops hnd hd hg s u n a _ hact ha hle
+  exact exit_always_succeeds kind same dsc pb produce users e0 hnd hd ops hg u n a hact ha hle
+
+/-- … and the hypothesis is NEEDED: `C05Cover.no_underflow_full` as literally stated (for ALL histories)
+    is false, because `setBoostedYieldsFactors` accepts `user_rewards_energy_const =
+    user_rewards_farm_const = 0` (it only checks the two minima): `get_user_rewards_for_week` then divides
+    by `cE + cF = 0` and every claim / exit of a user who passes the minima against a non-empty pool
+    aborts.  Owner-only misconfiguration; same behaviour on the real contracts
+    (work/f6fix/zero_consts.ops: ops 8, 9 `err`, model = implementation); reported as an observation. -/
+theorem no_underflow_full_needs_factor_validation : ¬ Mx.C05Cover.no_underflow_full := by
+  intro h
+  have h1 := h .mint false 1000000000000 1000 true [1, 2] 0
+    [.setFactors OWNER ⟨10, 0, 0, 1, 1⟩, .setPct OWNER 2500, .setEnergy 1 1000000 0 1000,
+     .enter 1 none 100000000 [], .advance 10 6, .claim 1 none [(1, 100000000)], .advance 20 7]
+    (by decide) (by decide) 1 2 100000000 (by decide) (by decide) (by decide) (by decide)
+  revert h1
+  decide
+
+/-- non-vacuity of `exit_always_succeeds` (closed): the two-claimers history satisfies `GoodOps`; user 2
+    holds position 2 (3000) in an active farm and exits with all of it, being paid the boosted share 1876
+    of week 1 on the way -/
+example :
+    let s := run (init .mint false 1000000000000 1000 true [1, 2] 0) twoClaimers
+    twoClaimers.all goodOp = true ∧ s.active = true ∧ s.hold 2 2 = 3000 ∧
+    (exitFarm s 2 none 2 3000).map (fun r => (r.2.farming, r.2.boosted)) = some (3000, 1876) := by
   decide
 
 end Mx.C05Budget
